@@ -321,53 +321,66 @@ func runC03(c *Ctx, r *Rec) {
 	// ---- D2 identity lookup
 	if fd := ms["RemoveValue"]; fd != nil {
 		construct := c.fdName(fd)
-		var rem *ast.CallExpr
-		inspectNoLit(fd.Body, func(x ast.Node) bool {
-			if rx, mname, call, ok := methodCall(x); ok && selectorField(info, rx) == listF && mname == "RemoveValue" {
-				rem = call
-			}
-			return true
-		})
-		if rem == nil {
-			r.fail("D2-identity-lookup", construct, c.pos(fd.Pos()), "RemoveValue does not remove from the association list")
-		} else {
-			deps := depClosure(info, fd)
-			params := paramObjs(info, fd)
-			bad := ""
-			// the index must not come from a Searchable call on the list
-			usesSearch := false
-			ast.Inspect(fd.Body, func(x ast.Node) bool {
-				if rx, mname, _, ok := methodCall(x); ok && selectorField(info, rx) == listF && searchableNames[mname] {
-					usesSearch = true
+		// scope: RemoveValue and the private methods of the catalog it reaches through its receiver
+		cg := c.sameTypeCallGraph(cat)
+		scope := []*ast.FuncDecl{fd}
+		seen := map[string]bool{"RemoveValue": true}
+		for work := []string{"RemoveValue"}; len(work) > 0; {
+			n := work[0]
+			work = work[1:]
+			for callee := range cg[n] {
+				if !seen[callee] && !ast.IsExported(callee) && ms[callee] != nil {
+					seen[callee] = true
+					scope = append(scope, ms[callee])
+					work = append(work, callee)
 				}
-				return true
-			})
-			idxObj := identObj(info, rem.Args[0])
-			if usesSearch {
-				bad = "the list position is found with the list's collator-based search (structural equality): with pointer keys a != b, *a == *b and equal values, RemoveValue(b) removes a's list entry and b's index entry"
-			} else if idxObj == nil || len(params) != 1 || !deps[idxObj][params[0]] {
-				bad = "the list position removed does not depend on the key parameter"
-			} else {
-				// the dependence must go through a comparison of an association's key with the parameter
-				cmp := false
-				ast.Inspect(fd.Body, func(x ast.Node) bool {
-					if be, ok := x.(*ast.BinaryExpr); ok && be.Op.String() == "==" {
-						l, rr := ast.Unparen(be.X), ast.Unparen(be.Y)
-						for _, pr := range [][2]ast.Expr{{l, rr}, {rr, l}} {
-							if _, mname, _, ok := methodCall(pr[0]); ok && mname == "GetKey" && isObj(info, pr[1], params[0]) {
-								cmp = true
+			}
+		}
+		var rem *ast.CallExpr
+		usesSearch, cmp := false, false
+		for _, sfd := range scope {
+			sparams := paramObjs(info, sfd)
+			inspectNoLit(sfd.Body, func(x ast.Node) bool {
+				if rx, mname, call, ok := methodCall(x); ok && selectorField(info, rx) == listF {
+					if mname == "RemoveValue" {
+						rem = call
+					}
+					if searchableNames[mname] {
+						usesSearch = true
+					}
+				}
+				if be, ok := x.(*ast.BinaryExpr); ok && be.Op.String() == "==" {
+					l, rr := ast.Unparen(be.X), ast.Unparen(be.Y)
+					for _, pr := range [][2]ast.Expr{{l, rr}, {rr, l}} {
+						if _, mname, _, ok := methodCall(pr[0]); ok && mname == "GetKey" {
+							for _, sp := range sparams {
+								if isObj(info, pr[1], sp) {
+									cmp = true
+								}
 							}
 						}
 					}
-					return true
-				})
-				if !cmp {
-					bad = "the position is not located by comparing the associations' keys with the key parameter (==, the same identity the key index uses)"
 				}
-			}
-			r.check(bad == "", "D2-identity-lookup", construct, c.pos(fd.Pos()), "the removed position is located by key identity", bad)
+				return true
+			})
 		}
-		// the value returned is the removed association's value
+		bad := ""
+		switch {
+		case rem == nil:
+			bad = "skip: RemoveValue does not call the association list's RemoveValue: the identity rule is bound to the list-backed design"
+		case usesSearch:
+			bad = "the list position is found with the list's collator-based search (structural equality): with pointer keys a != b, *a == *b and equal values, RemoveValue(b) removes a's list entry and b's index entry"
+		case len(scope) == 1 && func() bool {
+			deps := depClosure(info, fd)
+			params := paramObjs(info, fd)
+			idxObj := identObj(info, rem.Args[0])
+			return idxObj != nil && len(params) == 1 && !deps[idxObj][params[0]]
+		}():
+			bad = "the list position removed does not depend on the key parameter"
+		case !cmp:
+			bad = "skip: the position is not located by a visible == comparison of the associations' keys with the key parameter"
+		}
+		r.verdict("D2-identity-lookup", construct, c.pos(fd.Pos()), "the removed position is located by key identity (==, the identity the key index uses)", bad)
 	}
 	r.floor("D2-identity-lookup", 1)
 
@@ -375,22 +388,22 @@ func runC03(c *Ctx, r *Rec) {
 	for _, b := range [][2]string{{"GetValues", "GetValue"}, {"RemoveValues", "RemoveValue"}} {
 		if fd := ms[b[0]]; fd != nil {
 			bad := bulkFold(c, info, fd, b[1], true)
-			r.check(bad == "", "D1-bulk-fold", c.fdName(fd), c.pos(fd.Pos()), "applies "+b[1]+" to every requested key, in order", bad)
+			r.verdict("D1-bulk-fold", c.fdName(fd), c.pos(fd.Pos()), "applies "+b[1]+" to every requested key, in order", bad)
 		}
 	}
 	for _, nm := range []string{"MakeFromSequence", "MakeFromMap"} {
 		if fd := c.methodsOf(cls)[nm]; fd != nil {
 			bad := bulkFold(c, info, fd, "SetValue", false)
-			r.check(bad == "", "D1-bulk-fold", c.fdName(fd), c.pos(fd.Pos()), "sets every entry of the source", bad)
+			r.verdict("D1-bulk-fold", c.fdName(fd), c.pos(fd.Pos()), "sets every entry of the source", bad)
 		}
 	}
 	if fd := ms["GetKeys"]; fd != nil {
 		loops := loopsIn(fd.Body)
-		bad := "GetKeys is not one loop over the association list"
+		bad := "skip: GetKeys is not one loop over the association list"
 		if len(loops) == 1 {
 			_, bad = coveringLoop(c, info, loops[0])
 		}
-		r.check(bad == "", "D1-bulk-fold", c.fdName(fd), c.pos(fd.Pos()), "visits every association", bad)
+		r.verdict("D1-bulk-fold", c.fdName(fd), c.pos(fd.Pos()), "visits every association", bad)
 	}
 	r.floor("D1-bulk-fold", 4)
 
